@@ -1,4 +1,12 @@
 import RQ.Model.FS
+/-!
+# Helper lemmas about the path model: components, stripping, safe keys
+
+`pieces` splits a byte string at every `/`; `FM bs` (the `compOfPiece`-images of the pieces) is the fuel-free
+body component list: `bodyComps fuel bs = FM bs` for enough fuel.  `eatComp`/`dropBody` drop components of
+`FM`, `trimLeft` and `trimRight 0` preserve `FM`; `Plain y` says `components y = FM y`.
+Main result: `components_stripPath`.
+-/
 namespace RQ
 
 /-! ### takePiece -/
@@ -377,5 +385,149 @@ theorem TR_plain {t y : Bytes} (h : TR t y) (hy : Plain y) : Plain t := by
       | nil => simpa [includeCurDir] using h2
       | cons a' as' => simpa [includeCurDir] using h2
   · subst e; simp [Plain, includeCurDir]
+
+
+theorem components_body (n f2 : Nat) (x : Bytes) :
+    components (trimRight 0 f2 (trimLeft ((dropBody n x).length + 1) (dropBody n x))) = (FM x).drop n := by
+  obtain ⟨hy1, hy2⟩ := trimLeft_spec ((dropBody n x).length + 1) (dropBody n x) (by omega)
+  obtain ⟨ht1, ht2⟩ := trimRight0_spec f2 (trimLeft ((dropBody n x).length + 1) (dropBody n x))
+  rw [components_plain _ (TR_plain ht2 hy2), ht1, hy1, FM_dropBody]
+
+theorem stripPath_zero (raw : Bytes) : components (stripPath 0 raw) = components raw := by
+  cases raw with
+  | nil => simp [stripPath, dropComps]
+  | cons b bs =>
+    by_cases hb : b = SEP
+    · subst hb
+      simp only [stripPath, dropComps, if_true, Bool.false_eq_true, if_false]
+      rw [trimRight1_cons, components_sep, components_sep, (trimRight0_spec _ bs).1]
+    · cases hi : includeCurDir (b :: bs) with
+      | true =>
+        simp only [stripPath, dropComps, hb, hi, if_true, Bool.false_eq_true, if_false]
+        rw [trimRight1_cons, components_cur b bs hi]
+        obtain ⟨h1, h2⟩ := trimRight0_spec ((b :: bs).length + 1) bs
+        have hi' : includeCurDir (b :: trimRight 0 ((b :: bs).length + 1) bs) = true := by
+          cases bs with
+          | nil => simpa using hi
+          | cons c cs =>
+            simp [includeCurDir] at hi
+            obtain ⟨hb', hc⟩ := hi; subst hb'; subst hc
+            rcases h2 with e | ⟨ys, e⟩ | ⟨e, _⟩
+            · rw [e]; simp [includeCurDir]
+            · generalize trimRight 0 _ _ = t at e
+              cases t with
+              | nil => simp [includeCurDir]
+              | cons a as =>
+                simp at e; obtain ⟨e1, _⟩ := e; subst e1; simp [includeCurDir]
+            · rw [e]; simp [includeCurDir]
+        rw [components_cur _ _ hi', h1]
+      | false =>
+        simp only [stripPath, dropComps, hb, hi, Bool.false_eq_true, if_false]
+        have hp : Plain (b :: bs) := ⟨by simpa using hb, hi⟩
+        obtain ⟨h1, h2⟩ := trimRight0_spec ((b :: bs).length + 1) (b :: bs)
+        rw [components_plain _ (TR_plain h2 hp), h1, components_plain _ hp]
+
+theorem components_stripPath (n : Nat) (raw : Bytes) :
+    components (stripPath n raw) = (components raw).drop n := by
+  cases n with
+  | zero => simpa using stripPath_zero raw
+  | succ n =>
+    cases raw with
+    | nil => simp [stripPath, dropComps, trimLeft, components]
+    | cons b bs =>
+      by_cases hb : b = SEP
+      · subst hb
+        simp only [stripPath, dropComps, if_true]
+        rw [components_body, components_sep]; simp
+      · cases hi : includeCurDir (b :: bs) with
+        | true =>
+          simp only [stripPath, dropComps, hb, hi, if_true, if_false]
+          rw [components_body, components_cur b bs hi]; simp
+        | false =>
+          simp only [stripPath, dropComps, hb, hi, if_true, if_false, Bool.false_eq_true]
+          have hp : Plain (b :: bs) := ⟨by simpa using hb, hi⟩
+          rw [components_body, components_plain _ hp]
+
+
+/-! ### names of normal components -/
+theorem pieces_noSep_mem : ∀ (bs : Bytes) (p : Bytes), p ∈ pieces bs → SEP ∉ p
+  | [], p, h => by simp [pieces] at h; subst h; simp
+  | b :: bs, p, h => by
+    have ih := pieces_noSep_mem bs
+    unfold pieces at h
+    split at h
+    · simp at h
+      rcases h with h | h
+      · subst h; simp
+      · exact ih p h
+    · rename_i hb
+      split at h
+      · rename_i q qs hq
+        simp at h
+        rcases h with h | h
+        · subst h
+          have := ih q (by simp [hq])
+          simp [this, Ne.symm hb]
+        · exact ih p (by simp [hq, h])
+      · simp at h; subst h; simp [Ne.symm hb]
+
+theorem FM_normal {bs q : Bytes} (h : Comp.normal q ∈ FM bs) :
+    q ≠ [] ∧ q ≠ [46] ∧ q ≠ [46, 46] ∧ (47 : UInt8) ∉ q := by
+  unfold FM at h
+  rw [List.mem_filterMap] at h
+  obtain ⟨p, hp, hc⟩ := h
+  obtain ⟨e, h1, h2, h3⟩ := compOfPiece_normal hc
+  subst e
+  exact ⟨h1, h2, h3, pieces_noSep_mem bs q hp⟩
+
+theorem components_normal {raw q : Bytes} (h : Comp.normal q ∈ components raw) :
+    q ≠ [] ∧ q ≠ [46] ∧ q ≠ [46, 46] ∧ (47 : UInt8) ∉ q := by
+  cases raw with
+  | nil => simp [components] at h
+  | cons b bs =>
+    by_cases hb : b = SEP
+    · subst hb; rw [components_sep] at h; simp at h; exact FM_normal h
+    · cases hi : includeCurDir (b :: bs) with
+      | true => rw [components_cur b bs hi] at h; simp at h; exact FM_normal h
+      | false =>
+        rw [components_plain _ ⟨by simpa using hb, hi⟩] at h; exact FM_normal h
+
+theorem safeKey_mem {name : Bytes} {k : Key} (h : safeKey name = some k) {c : Bytes} (hc : c ∈ k) :
+    Comp.normal c ∈ components name := by
+  unfold safeKey at h
+  split at h
+  · simp at h
+  · simp only [] at h
+    split at h
+    · simp at h; subst h
+      rw [List.mem_filterMap] at hc
+      obtain ⟨a, ha, hac⟩ := hc
+      cases a <;> simp at hac
+      subst hac; exact ha
+    · simp at h
+
+theorem safeKey_unsafe (name : Bytes)
+    (h : name = [] ∨ Comp.root ∈ components name ∨ Comp.parent ∈ components name) : safeKey name = none := by
+  unfold safeKey
+  rcases h with h | h | h
+  · subst h; simp
+  · split
+    · rfl
+    · simp only []
+      split
+      · rename_i hall
+        rw [List.all_eq_true] at hall
+        have := hall _ h
+        simp at this
+      · rfl
+  · split
+    · rfl
+    · simp only []
+      split
+      · rename_i hall
+        rw [List.all_eq_true] at hall
+        have := hall _ h
+        simp at this
+      · rfl
 
 end RQ
